@@ -137,6 +137,21 @@ def cases_for_invariants(tier):
         d, sql = forms[i % len(forms)]
         follow = prnd.choice(["", f"; insert into tb_z{i} select * from tb_t{i}", f"; insert into tb_z{i} select region, last_region from tb_o{i}", f"; select * from tb_c{i}"])
         out.append({"sql": sql + follow, "dialect": d, "metadata": None, "silent": False, "want": ["inv"], "src": "generated:update_forms"})
+    # MERGE in more of its forms: aliased target, several WHEN arms, DELETE arm, INSERT without column list, sub-query / CTE sources
+    for i in range(16 if tier == "quick" else 160):
+        forms = [
+            ("ansi", f"merge into tb_m{i} t using tb_s{i} s on t.k = s.k when matched and s.f > 1 then update set t.a = s.a, t.b = s.b when matched then delete when not matched then insert (k, a) values (s.k, s.a)"),
+            ("snowflake", f"merge into sa.tb_m{i} as t using (select k, max(a) as a from tb_s{i} group by k) as s on t.k = s.k when matched then update set a = s.a when not matched then insert (k, a) values (s.k, s.a)"),
+            ("bigquery", f"merge into tb_m{i} t using tb_s{i} s on t.k = s.k when not matched by source then delete when not matched then insert row"),
+            ("tsql", f"merge tb_m{i} as t using tb_s{i} as s on t.k = s.k when matched then update set t.a = s.a when not matched by target then insert (k, a) values (s.k, s.a);"),
+            ("postgres", f"with s as (select k, a from tb_s{i} where a > 1) merge into tb_m{i} t using s on t.k = s.k when matched then update set a = s.a when not matched then insert (k, a) values (s.k, s.a)"),
+            ("sparksql", f"merge into tb_m{i} t using tb_s{i} s on t.k = s.k when matched then update set * when not matched then insert *"),
+            ("ansi", f"merge into tb_m{i} using tb_s{i} on tb_m{i}.k = tb_s{i}.k when matched then update set a = tb_s{i}.a, b = tb_s{i}.b"),
+            ("non-validating", f"merge into tb_m{i} t using (select k, a from tb_s{i} x join tb_r{i} y on x.k = y.k) s on t.k = s.k when matched then update set t.a = s.a when not matched then insert (k, a) values (s.k, s.a)"),
+        ]
+        d, sql = forms[i % len(forms)]
+        follow = prnd.choice(["", f"; insert into tb_z{i} select * from tb_m{i}", f"; insert into tb_z{i} select a, b from tb_m{i}", f"; select * from tb_s{i}"])
+        out.append({"sql": sql.rstrip(";") + follow if follow else sql, "dialect": d, "metadata": None, "silent": False, "want": ["inv"], "src": "generated:merge_forms"})
     # metadata variants: expansion and late resolution paths
     md = {"sa.tb_k1": ["c_1", "c_2"], "sb.tb_k2": ["c_1", "k_1"], "zz.o": ["q"]}
     for i, sql in enumerate(_scripts(n // 6, seed + 5)):
